@@ -41,8 +41,8 @@ type c10ent struct {
 type c10state struct {
 	c        *pbt.C
 	h        *sim.Hist
-	ents     map[string]*c10ent       // key kind/id or kind/name or kind/owner
-	deposits map[string]*big.Int      // contract/address -> deposited QSR
+	ents     map[string]*c10ent  // key kind/id or kind/name or kind/owner
+	deposits map[string]*big.Int // contract/address -> deposited QSR
 	seen     map[types.Hash]bool
 	releases int
 	refused  map[string]int
